@@ -394,6 +394,41 @@ theorem lemma_finish_error (ri neg : Bool) (a b : Nat) (c : Int) (d : Nat) (e : 
     · simp at h
     · split at h <;> simp at h
 
+/-- **Rejects, tuple-valued unit system** (repaired defect N6-tuple-unit-system) — a tuple of length
+    other than 1 raises ValueError like every other unknown value: the live function, probed by the
+    translator, builds its message without a TypeError (kernel-checked fact about the generated flag;
+    fails to build if the unwrapped `% unit_system` comes back). -/
+theorem s2b_tuple_system_rejected (text : List Char) (ri : Bool) :
+    stringToBytesArg .badTuple text ri = .error .valueError := by
+  have : tupleMessageFails = false := by decide
+  simp [stringToBytesArg, this]
+
+/-- **Rejects, any unit-system argument that is not one of the three names** — whether the argument
+    is a str other than `IEC`, `SI`, `mixed` or a value that is not a str at all (`None`, `0`, `False`,
+    `b'IEC'`, `('IEC',)`, `1.0`, …; passed by keyword or positionally, which the model does not
+    distinguish), the call raises ValueError whatever the text.  Full strength: tuples of any length
+    included (`s2b_tuple_system_rejected`). -/
+theorem s2b_rejects_unknown_argument (a : SysArg) (text : List Char) (ri : Bool)
+    (ho : a ≠ .omitted) (h : ∀ s : Sys, a ≠ .str s.key) :
+    stringToBytesArg a text ri = .error .valueError := by
+  cases a with
+  | omitted => exact absurd rfl ho
+  | badTuple => exact s2b_tuple_system_rejected text ri
+  | other => rfl
+  | str k =>
+    exact s2b_rejects_unknown_system k text ri (fun s hk => h s (by rw [hk]))
+
+/-- **Default** — leaving the argument out means IEC (the default of the live signature, extracted
+    on every run): it is a unit-system *name*, so an explicit `None` is not a way to say "default". -/
+theorem s2b_default_is_iec (text : List Char) (ri : Bool) :
+    stringToBytesArg .omitted text ri = stringToBytes Sys.iec.key text ri := by
+  have : defaultUnitSystem = some Sys.iec.key := by decide
+  simp only [stringToBytesArg, this]
+
+example : stringToBytesArg .other ['1', 'K', 'B'] false = .error .valueError ∧
+    stringToBytesArg .omitted ['1', 'K', 'B'] false = .ok (.float 1024 1) ∧
+    stringToBytesArg (.str ['i', 'e', 'c']) ['1', 'K', 'B'] true = .error .valueError := by decide +kernel
+
 /-- **Total** — whatever the unit-system key and the text, the only errors are ValueError and, with
     `return_int`, OverflowError; in particular never KeyError (finding D5: a prefix admitted by a
     regex but missing from the exponent table) and never TypeError (mixed mode's `None` base).
